@@ -102,14 +102,7 @@ func runC10(c *core.Ctx, crashes, deep bool) {
 	uni.UnknownDestPct = 4
 	e.SeedTokens(uni, 3)
 	if deep {
-		A := w.Nodes[0]
-		e.IssueMTDenom(A, w.Users[0], "deepclass")
-		for _, d := range A.App.MtKeeper.GetDenoms(A.QueryCtx()) {
-			if d.Owner == w.Users[0].Addr.String() {
-				e.MintMT(A, w.Users[0], d.Id, "", 100000, w.Users[0])
-				break
-			}
-		}
+		deepSetup(e)
 	}
 	cleansAccepted, cleanMsgs := 0, 0
 
@@ -125,7 +118,11 @@ func runC10(c *core.Ctx, crashes, deep bool) {
 		if accepted && !ok {
 			c.Violate("C10/source-clean-accepted/"+why, "%s accepted MsgCleanPacket %s->%s N=%d: %s", n.Name, pr.Src, pr.Dst, N, why)
 		}
-		if !accepted && ok {
+		foreign := msg.CleanPacket.SourceChain != "" && msg.CleanPacket.SourceChain != n.Name
+		if accepted && foreign {
+			w.Stats.Inc("probe-foreign-source-clean-accepted-as-own")
+		}
+		if !accepted && ok && !foreign {
 			// completeness on the source: needs a client for the next hop and a well-formed request
 			next := msg.CleanPacket.DestinationChain
 			if msg.CleanPacket.RelayChain != "" {
@@ -184,26 +181,10 @@ func runC10(c *core.Ctx, crashes, deep bool) {
 	steps := 90 + ch.Int(110)
 	for i := 0; i < steps; i++ {
 		c.Step("c10")
-		switch ch.Pick([]int{22, 34, 14, 8, 12, 6, 4}) {
+		switch ch.Pick([]int{22, 34, 14, 8, 12, 6, 4, 5}) {
 		case 0:
 			if deep && ch.Bool(3, 4) {
-				// one long channel: many small transfers on the same (source, destination) pair, so that
-				// sequences reach two digits and acknowledgements arrive far out of order
-				A := w.Nodes[0]
-				holder := w.Users[0]
-				for _, b := range func() []world.MTBalance { bs, _ := A.MTSnapshot(); return bs }() {
-					if b.Owner == holder.Addr.String() && b.Amount > 0 {
-						relay := ""
-						if ch.Bool(1, 5) {
-							relay = w.Nodes[2].Name
-						}
-						for k := 0; k < 1+ch.Int(4); k++ {
-							e.MtTransfer(A, holder, b.Class, b.ID, 1, w.Users[1].Addr.String(), w.Nodes[1].Name, relay)
-						}
-						w.Stats.Inc("deep-channel-burst")
-						break
-					}
-				}
+				deepBurst(c, e)
 				continue
 			}
 			e.RandomUserOp(w.Nodes[ch.Int(len(w.Nodes))], uni)
@@ -241,6 +222,8 @@ func runC10(c *core.Ctx, crashes, deep bool) {
 			if crashes {
 				crashSome(c, w)
 			}
+		case 7:
+			foreignClean(c, e, w.Nodes[ch.Int(len(w.Nodes))])
 		}
 	}
 	c.Nontrivial = cleansAccepted >= 1 && cleanMsgs >= 1
@@ -251,6 +234,95 @@ func runC10(c *core.Ctx, crashes, deep bool) {
 
 // cleanEffect: an accepted clean may change only the clean point and the
 // receipts / acknowledgements of that pair with sequence in (old, N].
+// deepSetup gives the first user of the first chain a large multi-token balance to send
+// from in many small transfers (deepBurst).
+func deepSetup(e *scen.Engine) {
+	w := e.W
+	A := w.Nodes[0]
+	e.IssueMTDenom(A, w.Users[0], "deepclass")
+	for _, d := range A.App.MtKeeper.GetDenoms(A.QueryCtx()) {
+		if d.Owner == w.Users[0].Addr.String() {
+			e.MintMT(A, w.Users[0], d.Id, "", 100000, w.Users[0])
+			break
+		}
+	}
+}
+
+// deepBurst makes one long channel: many small transfers on the same (source, destination)
+// pair, so that sequences reach two digits and acknowledgements arrive far out of order.
+func deepBurst(c *core.Ctx, e *scen.Engine) {
+	ch := c.Ch
+	w := e.W
+	A := w.Nodes[0]
+	holder := w.Users[0]
+	for _, b := range func() []world.MTBalance { bs, _ := A.MTSnapshot(); return bs }() {
+		if b.Owner == holder.Addr.String() && b.Amount > 0 {
+			relay := ""
+			if len(w.Nodes) > 2 && ch.Bool(1, 5) {
+				relay = w.Nodes[2].Name
+			}
+			for k := 0; k < 1+ch.Int(4); k++ {
+				e.MtTransfer(A, holder, b.Class, b.ID, 1, w.Users[1].Addr.String(), w.Nodes[1].Name, relay)
+			}
+			w.Stats.Inc("deep-channel-burst")
+			break
+		}
+	}
+}
+
+// foreignClean submits, on a chain that is NOT the source of a channel it knows (it is its
+// destination or relay), a MsgCleanPacket naming that channel's real source.  A user message
+// carries no proof, so the chain may refuse it or treat it as a request about its own
+// outgoing channel; it must not touch the foreign channel's state.
+func foreignClean(c *core.Ctx, e *scen.Engine, n *world.Node) *world.TxResult {
+	ch := c.Ch
+	cp := e.PM.On(n.Name)
+	seen := map[model.Pair]uint64{}
+	for _, k := range sortedPKeys(cp.Receipts) {
+		if k.Src != n.Name {
+			pr := model.Pair{Src: k.Src, Dst: k.Dst}
+			if k.Seq > seen[pr] {
+				seen[pr] = k.Seq
+			}
+		}
+	}
+	for _, k := range sortedPKeys(cp.Acks) {
+		if k.Src != n.Name {
+			pr := model.Pair{Src: k.Src, Dst: k.Dst}
+			if k.Seq > seen[pr] {
+				seen[pr] = k.Seq
+			}
+		}
+	}
+	pairs := sortedPairs(seen)
+	if len(pairs) == 0 {
+		return nil
+	}
+	pr := pairs[ch.Int(len(pairs))]
+	top := seen[pr]
+	cur := n.CleanPoint(pr.Src, pr.Dst)
+	cands := []uint64{1, top, cur + 1, n.MaxAckSeq(pr.Src, pr.Dst), 1 + uint64(ch.Int(int(top)))}
+	N := cands[ch.Int(len(cands))]
+	if N == 0 {
+		N = 1
+	}
+	relay := ""
+	if ch.Bool(2, 3) { // any chain the executing chain has a client for
+		var known []string
+		for _, o := range e.W.Nodes {
+			if o != n {
+				known = append(known, o.Name)
+			}
+		}
+		relay = known[ch.Int(len(known))]
+		if relay == pr.Dst {
+			relay = ""
+		}
+	}
+	e.W.Stats.Inc("foreign-source-clean-request")
+	return e.CleanPacketFrom(n, e.W.Users[ch.Int(len(e.W.Users))], pr.Src, pr.Dst, relay, N)
+}
+
 func cleanEffect(c *core.Ctx, n *world.Node, pr model.Pair, old, N uint64, before map[string]string, where string) {
 	if before == nil {
 		return
